@@ -43,6 +43,8 @@ class ExprMixin:
         """evaluate an expression that must not fork"""
         res = list(self.ev(node, st, fr))
         if len(res) != 1:
+            if not res and st.dead:
+                return POISON        # the path already failed an obligation; nothing more is evaluated on it
             raise Unsupported("forking expression in a non-forking position", node)
         return res[0][1]
 
